@@ -329,7 +329,12 @@ def check_style(m: M, res, rng: random.Random):
         "add_null": lambda: (Style.null() + build(m)) + Style(),
     }
     nolink = M(m.attrs, m.color, m.bgcolor, None if mask & 1 else "http://old")
-    routes["update_link"] = lambda: build(nolink).update_link(m.link)
+    def _update_link():
+        base = build(nolink)
+        str(base)  # the string form of the original is computed (and cached) first, as any logging / theme code does
+        return base.update_link(m.link)
+
+    routes["update_link"] = _update_link
     if m.color is None and m.bgcolor is None:
         coloured = M(m.attrs, "red" if mask & 2 else None, "rgb(1,2,3)" if mask & 4 or not mask & 2 else None, m.link)
         routes["without_color"] = lambda: build(coloured).without_color
@@ -359,6 +364,13 @@ def check_style(m: M, res, rng: random.Random):
         x = r[1]
         if not (x == s) or not (s == x) or observe(x) != want:
             _fail(res, eq_clause, "style built by route %s differs from the keyword-built style" % name, key, detail, repr(want), repr(observe(x)), size)
+            continue
+        # every construction route must also round-trip through its own string form
+        rt_clause = "c06.route_roundtrip:" + name
+        _count(res, rt_clause)
+        rr = _safe(lambda: Style.parse(str(x)))
+        if rr[0] != "ok" or not (rr[1] == x):
+            _fail(res, rt_clause, "Style.parse(str(x)) != x for a style built by route %s" % name, key, detail, repr(observe(x)), repr(rr[1] if rr[0] != "ok" else observe(rr[1])), size)
             continue
         h_clause = "c06.hash_eq:" + name
         _count(res, h_clause)
